@@ -9,7 +9,7 @@
 From DV Require Import Base.Prelude Model.NameM Model.ParserM Model.UntrustedM.
 From DV Require Model.TokM Model.SchemaM Model.SchemaHand Proofs.UntrustedSchema Proofs.UntrustedHand Model.ZoneTextM Proofs.UntrustedZone
                 Model.RdTextM Model.UntrustedTextM Proofs.UntrustedMsgText Proofs.UntrustedMsgTerm
-                Model.TsigM Proofs.UntrustedTsig Proofs.UntrustedEdns.
+                Model.TsigM Proofs.UntrustedTsig Proofs.UntrustedEdns Proofs.UntrustedEsc.
 From DV Require Import Proofs.NameValid Proofs.ParserSafe Proofs.ParserProg
                        Proofs.UntrustedSafe Proofs.UntrustedDec Proofs.UntrustedText.
 Open Scope Z_scope.
@@ -318,6 +318,38 @@ Theorem unescape_to_bytes_wrapped : forall t : TokM.token,
   end.
 Proof. exact UntrustedText.unescape_to_bytes_wrapped. Qed.
 Print Assumptions unescape_to_bytes_wrapped.
+
+
+(* The \DDD escapes are tested with str.isdecimal() and converted with int(c) in tokenizer.py.  For
+   EVERY digit classifier dval (`dval c = Some d` iff c.isdecimal(), d = int(c): ASCII digits and the
+   decimal digits of every other script; a character that only str.isdigit() accepts - superscripts,
+   circled digits - has dval = None and is an ordinary escaped character) and every string:
+   Token.unescape gives a value, SyntaxError or UnexpectedEnd; the int(c) conversion cannot fail
+   because it is applied only where the classifier is defined. *)
+Theorem no_internal_unescape_any_classifier : forall (dval : Z -> option Z) (value : list Z),
+  match ue_loop_g dval value [] with
+  | Ok _ => True
+  | Lib e => e = TokM.eUnexpectedEnd \/ e = TokM.eSyntax
+  | Internal _ => False
+  end.
+Proof. exact UntrustedEsc.unescape_g_family. Qed.
+Print Assumptions no_internal_unescape_any_classifier.
+
+(* Token.unescape_to_bytes: additionally UnicodeEncodeError, and only for a lone surrogate *)
+Theorem no_internal_unescape_to_bytes_any_classifier : forall (dval : Z -> option Z) (value : list Z),
+  match ub_loop_g dval value [] with
+  | Ok _ => True
+  | Lib e => e = TokM.eUnexpectedEnd \/ e = TokM.eSyntax
+  | Internal e => e = TokM.iUnicodeEncode /\ ~ Forall UntrustedText.no_surrogate value
+  end.
+Proof. exact UntrustedEsc.unescape_to_bytes_g_family. Qed.
+Print Assumptions no_internal_unescape_to_bytes_any_classifier.
+
+(* with the ASCII classifier they are the decoders of the shared tokenizer model *)
+Theorem unescape_classifier_ascii_agrees : forall value : list Z,
+  ue_loop_g dval_ascii value [] = TokM.ue_loop value [] /\ ub_loop_g dval_ascii value [] = TokM.ub_loop value [].
+Proof. exact UntrustedEsc.unescape_ascii_agrees. Qed.
+Print Assumptions unescape_classifier_ascii_agrees.
 
 (* ================= zone files ================= *)
 
